@@ -38,6 +38,9 @@ macro "pb_tac" : tactic =>
 @[simp] theorem pb_clearStoreRelated (c : C) : (clearStoreRelated c).s.pb = c.s.pb := rfl
 @[simp] theorem pb_decSendCount (c : C) : (decSendCount c).s.pb = c.s.pb := by
   unfold decSendCount; pb_tac
+@[simp] theorem pb_releasePacketId (c : C) (id : Nat) : (releasePacketId c id).s.pb = c.s.pb :=
+  releasePacketId_ind (Q := fun c' => c'.s.pb = c.s.pb) c id (pb_releaseIfUsed c id) (fun h => h)
+    (fun h => (pb_decSendCount _).trans h)
 @[simp] theorem pb_releaseAll (l : List Nat) : ∀ c, (releaseAll c l).s.pb = c.s.pb := by
   induction l with
   | nil => intro c; rfl
